@@ -46,7 +46,7 @@ CFG = {
     "exe": "geomv_c01",
     "go_cmd": "c01",
     "stages": ["go:gen", "go:impl", "lean:judge"],
-    "theorems": [T + n for n in ["C01_pointset", "C01_closed", "C01_empty_only_if_null", "C01_xor_defect_before_fix", "C01_pointset_natural", "member_eq_memberNat",
+    "theorems": [T + n for n in ["C01_pointset", "C01_closed", "C01_empty_only_if_null", "C01_xor_defect_before_fix", "C01_pointset_natural", "C01_inclusion_exclusion_pointwise", "member_eq_memberNat",
                                  "construct_pointset", "boundsIntersection_pointset", "not_both_inside", "insideRing_rect", "inBox_of_inside"]],
     "level": "proof",
     "trusted_base": [
